@@ -80,7 +80,7 @@ impl UserFunctions {
         let function = self.get(name)?;
 
         if function.cacheable() {
-            let cache_key = format!("{name}-{param:?}");
+            let cache_key = cache_key(name, &param);
 
             match results_cache.get(&cache_key) {
                 Some(value) => Ok(value.clone()),
@@ -93,6 +93,29 @@ impl UserFunctions {
         } else {
             call_function(function, param, name).await
         }
+    }
+}
+
+/// Key of a call in the results cache. The `Debug` rendering prints every NaN
+/// alike whatever its sign and payload, so the bit patterns of the NaNs in the
+/// parameter are appended: a result is never reused for a different argument
+fn cache_key(name: &str, param: &Value) -> String {
+    fn nan_bits(value: &Value, bits: &mut Vec<u64>) {
+        match value {
+            Value::Float(float) if float.is_nan() => bits.push(float.to_bits()),
+            Value::Vec(items) => items.iter().for_each(|item| nan_bits(item, bits)),
+            Value::Map(map) => map.values().for_each(|item| nan_bits(item, bits)),
+            _ => (),
+        }
+    }
+
+    let mut bits = Vec::new();
+    nan_bits(param, &mut bits);
+
+    if bits.is_empty() {
+        format!("{name}-{param:?}")
+    } else {
+        format!("{name}-{param:?}-{bits:x?}")
     }
 }
 
